@@ -4,6 +4,7 @@ import (
 	"context"
 	"fmt"
 	"math/rand"
+	"strings"
 
 	"github.com/orbs-network/lean-helix-go/spec/types/go/protocol"
 )
@@ -248,6 +249,16 @@ func (w *world) mutatedReplay() {
 		return
 	}
 	op := w.mutate(m)
+	if strings.HasSuffix(op, "instance") || strings.HasSuffix(op, "sender") || strings.HasSuffix(op, "sigflag") || strings.HasSuffix(op, "type") {
+		// also try the filters on the cache path: prefer a recipient that is still below the message's height
+		for _, cand := range w.honest {
+			if uint64(cand.vn.State().Height()) < m.height() && w.r.Intn(2) == 0 {
+				n = cand
+				w.rep.count("inject:mutated-message-for-a-future-height")
+				break
+			}
+		}
+	}
 	w.inject(n, m, "mutate-"+op)
 }
 
@@ -592,6 +603,11 @@ func (w *world) byzAction() {
 			}
 			if r.Intn(4) != 0 {
 				w.inject(n, &aMsg{Kind: "PP", Ref: ref(1, v, blk.Id), Snd: aSig{ld, true}, Block: blk}, "byz-proposal")
+				if r.Intn(3) == 0 { // and a second, conflicting proposal for the same view to the same node
+					b2 := w.byzBlock(h)
+					b2.Bad = nil
+					w.inject(n, &aMsg{Kind: "PP", Ref: ref(1, v, b2.Id), Snd: aSig{ld, true}, Block: b2}, "byz-second-proposal-same-view")
+				}
 			}
 		}
 	case 1: // Byzantine PREPARE / COMMIT supporting any hash seen at this height
@@ -729,7 +745,13 @@ func (w *world) byzAction() {
 		m := &aMsg{Kind: "NV", NVType: 4, NVInst: worldInst, NVHeight: h, NVView: nv, Votes: votes, Snd: aSig{ld, true}, Ref: ref(1, nv, hash), PPSnd: aSig{ld, true}, Block: blk}
 		for _, n := range w.honest {
 			if r.Intn(4) != 0 {
-				w.inject(n, m.clone(), "byz-NV")
+				mm := m.clone()
+				if variant == 4 && !seen[n.id] {
+					// a vote fabricated in the name of the recipient itself (it never signed it)
+					mm.Votes = append(mm.Votes, aVote{5, worldInst, h, nv, nil, aSig{n.id, true}})
+					w.rep.count("byz:NV-forged-vote-in-recipients-name")
+				}
+				w.inject(n, mm, "byz-NV")
 			}
 		}
 	case 5: // type confusion: an honest PREPARE signature wrapped as COMMIT (and vice versa)
